@@ -871,6 +871,7 @@ func main() {
 		writeIfChanged(filepath.Join(filepath.Dir(*funcsPath), "GenDecrypt.v"), emitDecryptFuncs(types, tenv))
 		writeIfChanged(filepath.Join(filepath.Dir(*funcsPath), "GenTree.v"), treeOut)
 		writeIfChanged(filepath.Join(filepath.Dir(*funcsPath), "GenBuild.v"), buildOut)
+		writeIfChanged(filepath.Join(filepath.Dir(*funcsPath), "GenDeflate.v"), emitDeflateFuncs(root, types, env, tenv))
 	}
 	if *litPath != "" {
 		writeIfChanged(*litPath, collectLiterals(root, types, uuid))
